@@ -244,6 +244,9 @@ def run(tier):
     ck.sample({"scenario": scs[1].name, "trace": [t for t, o in zip(trace, owner) if o == scs[1].cid][:5]})
     ck.extra["copies"] = len([t for t in trace if t["op"] == "copy"]); ck.extra["findmatch"] = len(fm_cases)
     sb = {s.cid: (s.script(), s.name, delta.replay_files(s)) for s in scs}; sb.update(fscripts)
+    # the copy at file offsets beyond 2^31 (thorough: 2^32): sparse files, facts read at the extents (verif/sparsedelta.py)
+    from .. import sparsedelta
+    sparsedelta.run(ck, "C08", tier, wd, rnd, trace, owner, sb, with_round=False)
     validate_segments(ck, "C08", trace, owner, wd, scripts_by=sb, module="Trace_Delta", cfg="Trace_Delta.cfg", start_ops=("begin",))
     if not ck.violations:
         neg = [{"op": "begin"}, {"op": "start", "n": 2, "disk": [True, False]}, {"op": "scan", "vec": [1, -1], "disk": [True, False], "sized": [False, True], "ret": -1},
